@@ -7,14 +7,15 @@ sys.path.insert(0, os.path.dirname(os.path.dirname(os.path.abspath(__file__))))
 import core   # noqa: E402
 import amod   # noqa: E402
 
-INVS = ["InOrder", "Lossless", "Parallelism", "Bound", "CbSafe", "RcBalance"]
+INVS = ["InOrder", "Lossless", "Parallelism", "Bound", "CbSafe", "FailedNeverSignalled", "RcBalance"]
 INV_PROP = {"InOrder": "C02", "Lossless": "C02", "Parallelism": "C03", "Bound": "C03", "EmitsComplete": "C03", "AllDelivered": "C02",
-            "CbSafe": "C04", "RcBalance": "C05"}
+            "CbSafe": "C04", "FailedNeverSignalled": "C04", "RcBalance": "C05"}
 
 
 def adapt(run):
     sync = run["cfg"]["cons"][0] == "sync"
     out, cur = [], None
+    delivered = set()
     for ev in run["ev"]:
         k = ev["ev"]
         if k == "emit_call":
@@ -31,10 +32,16 @@ def adapt(run):
             out.append({"ev": "FuncStart", "e": ev["e"]})
         elif k == "func_finish":
             out.append({"ev": "FuncFinish", "e": ev["e"]})
+        elif k == "func_fail":
+            out.append({"ev": "FuncFail", "e": ev["e"]})
         elif k == "deliver":
+            delivered.update(ev["x"])
             out.append({"ev": "CbEmit", "e": ev["x"][0] if len(ev["x"]) == 1 else -1, "md": ev["md"]})
         elif k == "cons_done" and not sync:
             out.append({"ev": "ConsumerDone"})
+        elif k == "release" and ev["site"].endswith("work_callback") and ev["tag"] not in delivered:
+            # the worker lets go of an element it never passed on (its function raised)
+            out.append({"ev": "ReleaseFailed", "e": ev["tag"], "count": ev["count"], "fired": bool(ev["fired"])})
         elif k == "release" and ev["site"].endswith("work_callback"):
             out.append({"ev": "Release", "e": ev["tag"], "count": ev["count"], "fired": bool(ev["fired"])})
         elif k == "release" and ev["fired"]:
@@ -69,6 +76,8 @@ def attribute(run, trace, idx):
         return "C05", "reference handling of element %s differs from the specification (%s)" % (e, k)
     if k == "ObsRc":
         return "C05", "reference counts differ from the specification"
+    if k == "ReleaseFailed":
+        return "C04", "element %s, whose function raised, was released by the worker (and so reported as done)" % ev.get("e")
     if k == "End":
         return "C02", "not everything was delivered at quiescence"
     return "C02", k
@@ -85,39 +94,50 @@ def run(tier, seed, mutant=None, only_validate=False):
                 for sync in (False, True):
                     # the design in which the awaited task counts against the limit: everything holds
                     r, rec = amod.mc(res, work, "AsyncMapAsync", "ideal_p%d_sync%d" % (p, sync),
-                                     dict(NE=ne, P=p, SyncCons=sync, MaxOut=ne, Legacy=False, EarlySlot=False), INVS,
+                                     dict(NE=ne, P=p, SyncCons=sync, MaxOut=ne, Legacy=False, EarlySlot=False, Faults=True, ReleaseFailed=False), INVS,
                                      ["EmitsComplete", "AllDelivered"], spec="FairSpec", coverage=False)
                     amod.spec_violation(res, r, rec, INV_PROP, "C02", "map_async")
                     # the tree (slot freed by get()): everything but the two parallelism bounds
                     r, rec = amod.mc(res, work, "AsyncMapAsync", "tree_p%d_sync%d" % (p, sync),
-                                     dict(NE=ne, P=p, SyncCons=sync, MaxOut=ne, Legacy=False, EarlySlot=True),
+                                     dict(NE=ne, P=p, SyncCons=sync, MaxOut=ne, Legacy=False, EarlySlot=True, Faults=True, ReleaseFailed=False),
                                      [i for i in INVS if i not in ("Parallelism", "Bound")], ["EmitsComplete", "AllDelivered"],
                                      spec="FairSpec", coverage=False)
                     amod.spec_violation(res, r, rec, INV_PROP, "C02", "map_async")
             for inv, leg in (("InOrder", True), ("CbSafe", True), ("Parallelism", False)):
                 r, rec = amod.mc(res, work, "AsyncMapAsync", ("legacy_" if leg else "tree_") + inv,
-                                 dict(NE=3, P=1, SyncCons=False, MaxOut=3, Legacy=leg, EarlySlot=True), [inv], coverage=False)
+                                 dict(NE=3, P=1, SyncCons=False, MaxOut=3, Legacy=leg, EarlySlot=True, Faults=False, ReleaseFailed=False), [inv], coverage=False)
                 rec["expected_violation"] = inv
                 rec["ok"] = r.violated == inv
                 if r.violated != inv:
                     raise core.MachineryError("sensitivity run: pre-fix map_async not refuted by " + inv)
+            # sensitivity: the pinned tree released -- and so reported as done -- elements whose function raised (F23)
+            r, rec = amod.mc(res, work, "AsyncMapAsync", "legacy_release_failed",
+                             dict(NE=2, P=1, SyncCons=False, MaxOut=2, Legacy=False, EarlySlot=True, Faults=True, ReleaseFailed=True),
+                             ["FailedNeverSignalled"], coverage=False)
+            rec["expected_violation"] = "FailedNeverSignalled"
+            rec["ok"] = r.violated == "FailedNeverSignalled"
+            if r.violated != "FailedNeverSignalled":
+                raise core.MachineryError("sensitivity run: releasing failed elements not refuted by FailedNeverSignalled")
         cfgs = [{"kind": "map_async", "parallelism": p, "cons": [c], "max_elems": ne}
                 for p in ((1, 2) if tier == "quick" else (1, 2, 3)) for c in ("future", "sync")]
+        # function evaluations may raise (logged and dropped: stop_on_exception=False)
+        cfgs += [{"kind": "map_async", "parallelism": p, "cons": ["future"], "max_elems": ne, "faults": True}
+                 for p in ((1, 2) if tier == "quick" else (1, 2, 3))]
         amod.node_engine(res, work, node="map_async", trace_module="AsyncMapAsyncTrace", cfgs=cfgs,
-                         consts_of=lambda c: dict(NE=ne, P=c["parallelism"], SyncCons=c["cons"][0] == "sync", MaxOut=ne, Legacy=False, EarlySlot=True),
+                         consts_of=lambda c: dict(NE=ne, P=c["parallelism"], SyncCons=c["cons"][0] == "sync", MaxOut=ne, Legacy=False, EarlySlot=True, Faults=True, ReleaseFailed=False),
                          adapt=adapt, attribute=attribute, seed=seed, depth=8 if tier == "quick" else 10,
                          limit=250 if tier == "quick" else 2500, nrandom=250 if tier == "quick" else 2500, maxlen=18,
                          default_prop="C02", mutant=mutant,
                          nontrivial=lambda r, t: sum(1 for x in t if x["ev"] == "FuncFinish") >= 2)
         res.rule = ("amapasync: map_async(parallelism 1..3) x consumer style x schedules over {arrive, finish oldest / newest running function, "
-                    "finish consumer, one loop iteration}; non-trivial = >= 2 function completions chosen by the driver")
+                    "finish consumer, fail a running function, one loop iteration}; non-trivial = >= 2 function completions chosen by the driver")
     finally:
         shutil.rmtree(work, ignore_errors=True)
     return res
 
 
 TRACE_MODULE = "AsyncMapAsyncTrace"
-consts_of = lambda c: dict(NE=c['max_elems'], P=c['parallelism'], SyncCons=c['cons'][0] == 'sync', MaxOut=c['max_elems'], Legacy=False, EarlySlot=True)
+consts_of = lambda c: dict(NE=c['max_elems'], P=c['parallelism'], SyncCons=c['cons'][0] == 'sync', MaxOut=c['max_elems'], Legacy=False, EarlySlot=True, Faults=True, ReleaseFailed=False)
 
 
 def replay(v):
